@@ -46,7 +46,7 @@ var decoders = []string{"message", "value", "reader", "opaque", "reflect", "meta
 func typeOpts() gen.TypeOpts {
 	return gen.TypeOpts{Depth: 3, Width: 3,
 		Leaves:  append(append([]ref.Kind{}, gen.AllScalars...), ref.KValue, ref.KString, ref.KString),
-		MapKeys: gen.KeyScalars, Structs: true, Tuples: true, Maps: true, Lists: true, Template: false, ZeroMem: true}
+		MapKeys: gen.KeyScalars, Structs: true, Tuples: true, Maps: true, Lists: true, Template: false, ZeroMem: true, CompositeKeys: true}
 }
 
 func genCase(t *rapid.T) Case {
